@@ -189,11 +189,11 @@ Section EndemicTheorems.
     - destruct (sender_val_char G O H sidS (snd rn) tbs skeys idx SV L) as [r0 [r1 [D0 [D1 K]]]].
       unfold rn in D0, D1. rewrite (recv_new_msg1_nth sidR bits tas ros idx L) in D0, D1.
       rewrite recv_instance_dec_fst in D0. rewrite recv_instance_dec_snd in D1.
-      inversion D0 as [D0']. inversion D1 as [D1']. exact K.
+      injection D0 as D0'. injection D1 as D1'. subst r0 r1. exact K.
     - destruct (receiver_val_char G O H st (fst sp) (rs_bits st) rkeys idx RV L) as [_ [mb [D K]]].
       unfold chosen_side, sp in D. rewrite (sender_msg2_nth G O H sidS (snd rn) tbs idx L) in D.
       rewrite K. f_equal. f_equal.
-      destruct (bit_at (rs_bits st) idx); cbn [fst snd] in D; rewrite dec_enc in D; inversion D; reflexivity.
+      destruct (bit_at (rs_bits st) idx); cbn [fst snd] in D; rewrite dec_enc in D; injection D as D'; subst mb; reflexivity.
   Qed.
 
   Lemma recv_new_state sid bits tas ros :
@@ -250,7 +250,7 @@ Section EndemicTheorems.
     intros rn sp SV RV L c ta ro rc tb_c tb_o h_fresh E.
     destruct (exchange_char sid bits tas ros sid tbs (fst rn)) as [skeys0 [rkeys0 [SV0 [RV0 K]]]].
     fold rn sp in SV0, RV0. rewrite SV in SV0. apply val_inj in SV0. subst skeys0.
-    rewrite RV in RV0. apply val_inj in RV0. inversion RV0 as [[Eb Er]]. subst rkeys0. clear RV0.
+    rewrite RV in RV0. apply val_inj in RV0. apply (f_equal snd) in RV0. cbn [snd] in RV0. subst rkeys0.
     rewrite <- eot_n_256 in L. destruct (K idx L) as [KS KR]. clear K.
     unfold rn in KR. rewrite recv_new_state in KR. cbn [rs_bits rs_ta] in KR.
     rewrite KS, KR in E. clear KS KR.
@@ -293,15 +293,15 @@ Section EndemicTheorems.
     intros NS rn sp SV RV L c ta ro rc tb_c tb_o hS hR h_fresh E.
     destruct (exchange_char sidR bits tas ros sidS tbs (fst rn)) as [skeys0 [rkeys0 [SV0 [RV0 K]]]].
     fold rn sp in SV0, RV0. rewrite SV in SV0. apply val_inj in SV0. subst skeys0.
-    rewrite RV in RV0. apply val_inj in RV0. inversion RV0 as [[Eb Er]]. subst rkeys0. clear RV0.
+    rewrite RV in RV0. apply val_inj in RV0. apply (f_equal snd) in RV0. cbn [snd] in RV0. subst rkeys0.
     rewrite <- eot_n_256 in L. destruct (K idx L) as [KS KR]. clear K.
     unfold rn in KR. rewrite recv_new_state in KR. cbn [rs_bits rs_ta] in KR.
-    rewrite KS, KR in E. clear KS KR. fold c ta ro in E. fold rc in E.
+    rewrite KS, KR in E. clear KS KR. fold c in E.
     assert (Bc : b = c \/ b = negb c) by (destruct b, c; auto).
     destruct Bc as [Bc|Bc].
     - (* chosen side *)
       assert (E' : h2 (N.of_nat idx) (smul ta (smul tb_c gen)) = h2 (N.of_nat idx) (smul tb_c (add rc hS))).
-      { unfold tb_c, hS, rc. subst b. destruct c eqn:C; cbn [fst snd] in E.
+      { unfold tb_c, hS, rc, ta, ro. subst b. destruct c eqn:C; cbn [fst snd] in E.
         - rewrite (skp_chosen sidR sidS (N.of_nat idx) true) in E. exact E.
         - rewrite (skp_chosen sidR sidS (N.of_nat idx) false) in E. exact E. }
       apply h2_eq_char in E'. destruct E' as [EP|Coll]; [right; left|left; split; [exact Bc|exact Coll]].
@@ -310,7 +310,7 @@ Section EndemicTheorems.
       + intros k k'. apply h_query_sid_distinct. intros Q. apply NS. symmetry. exact Q.
     - (* other side *)
       assert (E' : h2 (N.of_nat idx) (smul ta (smul tb_c gen)) = h2 (N.of_nat idx) (smul tb_o (add ro h_fresh))).
-      { unfold tb_c, tb_o, h_fresh, rc. subst b. destruct c eqn:C; cbn [fst snd negb] in E.
+      { unfold tb_c, tb_o, h_fresh, rc, ta, ro. subst b. destruct c eqn:C; cbn [fst snd negb] in E.
         - rewrite (skp_other sidR sidS (N.of_nat idx) true) in E. exact E.
         - rewrite (skp_other sidR sidS (N.of_nat idx) false) in E. exact E. }
       apply h2_eq_char in E'. destruct E' as [EP|Coll]; [right; right; right|right; right; left; split; [exact Bc|exact Coll]].
@@ -380,12 +380,12 @@ Section EndemicTheorems.
     unfold chosen_side, sp' in D. rewrite (sender_msg2_nth G O H sid' msg1' tbs' idx L) in D.
     unfold rn in D, KR. rewrite recv_new_state in D, KR. cbn [rs_bits rs_ta] in D, KR. fold c ta in D, KR.
     assert (Emb : mb = smul tb_c' gen).
-    { unfold tb_c'. destruct c; cbn [fst snd] in D; rewrite dec_enc in D; inversion D; reflexivity. }
-    subst mb. rewrite KS, KR in E. clear KS KR D. fold c ta ro in E. fold rc in E.
+    { unfold tb_c'. destruct c; cbn [fst snd] in D; rewrite dec_enc in D; injection D as D'; subst mb; reflexivity. }
+    subst mb. rewrite KS, KR in E. clear KS KR D. fold c in E.
     assert (Bc : b = c \/ b = negb c) by (destruct b, c; auto).
     destruct Bc as [Bc|Bc].
     - assert (E' : h2 (N.of_nat idx) (smul ta (smul tb_c' gen)) = h2 (N.of_nat idx) (smul tb_c (smul ta gen))).
-      { unfold tb_c, rc. subst b. destruct c eqn:C; cbn [fst snd] in E.
+      { unfold tb_c, tb_c', rc, ta, ro. subst b. destruct c eqn:C; cbn [fst snd] in E.
         - rewrite (skp_chosen sid sid (N.of_nat idx) true) in E. cbn zeta in E. rewrite m_a_chosen in E. exact E.
         - rewrite (skp_chosen sid sid (N.of_nat idx) false) in E. cbn zeta in E. rewrite m_a_chosen in E. exact E. }
       apply h2_eq_char in E'. destruct E' as [EP|Coll]; [right; left|left; eauto].
@@ -395,10 +395,76 @@ Section EndemicTheorems.
       rewrite (gl_smul_mul q O laws ta tb_c'), (gl_smul_mul q O laws (-1) (tb_c * ta)), (gl_smul_mul q O laws tb_c ta).
       rewrite EP. apply sub_self_smul.
     - assert (E' : h2 (N.of_nat idx) (smul ta (smul tb_c' gen)) = h2 (N.of_nat idx) (smul tb_o (add ro h_fresh))).
-      { unfold tb_o, h_fresh, rc. subst b. destruct c eqn:C; cbn [fst snd negb] in E.
+      { unfold tb_o, tb_c', h_fresh, rc, ta, ro. subst b. destruct c eqn:C; cbn [fst snd negb] in E.
         - rewrite (skp_other sid sid (N.of_nat idx) true) in E. exact E.
         - rewrite (skp_other sid sid (N.of_nat idx) false) in E. exact E. }
       apply h2_eq_char in E'. destruct E' as [EP|Coll]; [right; right|left; eauto].
       split; [exact Bc|]. rewrite <- EP. rewrite (gl_smul_mul q O laws). reflexivity.
   Qed.
+  (** Message 1 substituted: the sender of session [sid] is given the message 1 that ANOTHER receiver
+      run made (session id [sid'], tape bits'/tas'/ros'); the receiver of session [sid] (state
+      bits/tas) processes the sender's answer.  Its key equals a sender key only under an H2
+      collision or an explicit group equation tying the sender's hash-to-curve output under [sid]
+      to the two receivers' independent tapes. *)
+  Lemma endemic_msg1_substituted_lem sid bits tas sid' bits' tas' ros' tbs skeys rkeys idx (b : bool) :
+    let st := {| rs_bits := bits; rs_ta := tas |} in
+    let rn' := eot_receiver_new G O H sid' bits' tas' ros' in
+    let sp := eot_sender_process G O H sid (snd rn') tbs in
+    snd sp = Val skeys -> eot_receiver_process G O H st (fst sp) = Val (bits, rkeys) ->
+    (idx < 256)%nat ->
+    let c := bit_at bits idx in
+    let c' := bit_at bits' idx in
+    let ta := nth idx tas 0 in
+    let ro' := nth idx ros' gid in
+    let rc' := rchoice sid' c' (N.of_nat idx) (nth idx tas' 0) ro' in
+    let r0 := if c' then ro' else rc' in
+    let r1 := if c' then rc' else ro' in
+    let tb_c := if c then snd (nth idx tbs (0, 0)) else fst (nth idx tbs (0, 0)) in
+    let tb_b := if b then snd (nth idx tbs (0, 0)) else fst (nth idx tbs (0, 0)) in
+    nth idx rkeys [] = (if b then snd (nth idx skeys nomsg) else fst (nth idx skeys nomsg)) ->
+    (exists P P', h2_collision G O H (N.of_nat idx) P P') \/
+    smul tb_b (add (if b then r1 else r0) (hf (ro_of_bit b) (N.of_nat idx) sid (if b then r0 else r1))) =
+      smul (ta * tb_c) gen.
+  Proof.
+    intros st rn' sp SV RV L c c' ta ro' rc' r0 r1 tb_c tb_b E.
+    destruct (exchange_char sid' bits' tas' ros' sid tbs st) as [skeys0 [rkeys0 [SV0 [RV0 K]]]].
+    fold rn' sp in SV0, RV0. rewrite SV in SV0. apply val_inj in SV0. subst skeys0.
+    rewrite RV in RV0. apply val_inj in RV0. apply (f_equal snd) in RV0. cbn [snd] in RV0. subst rkeys0.
+    rewrite <- eot_n_256 in L. destruct (K idx L) as [KS KR]. clear K.
+    unfold st in KR. cbn [rs_bits rs_ta] in KR.
+    rewrite KS, KR in E. clear KS KR.
+    assert (E' : h2 (N.of_nat idx) (smul ta (smul tb_c gen)) =
+                 h2 (N.of_nat idx) (skp sid (N.of_nat idx) b r0 r1 (fst (nth idx tbs (0, 0))) (snd (nth idx tbs (0, 0))))).
+    { unfold ta, tb_c, c. destruct b; cbn [fst snd] in E; exact E. }
+    apply h2_eq_char in E'. destruct E' as [EP|Coll]; [right|left; eauto].
+    rewrite skp_unfold in EP. unfold tb_b. rewrite <- EP. rewrite (gl_smul_mul q O laws). reflexivity.
+  Qed.
 End EndemicTheorems.
+
+(* ------------------------------------------------------------------ closed wrappers (no group laws needed) *)
+Lemma endemic_query_injective_lem G (O : group_ops G) : enc33_roundtrip G O ->
+  forall ro idx sid pk k ro' idx' sid' pk' k',
+  (ro < 65536)%N -> (ro' < 65536)%N -> (idx < 65536)%N -> (idx' < 65536)%N ->
+  h_query G O ro idx sid pk k = h_query G O ro' idx' sid' pk' k' ->
+  ro = ro' /\ idx = idx' /\ sid = sid' /\ pk = pk' /\ k = k'.
+Proof.
+  intros RT ro idx sid pk k ro' idx' sid' pk' k' L1 L2 L3 L4 E.
+  apply h_query_inj in E; auto. destruct E as [A [B [C [D F]]]].
+  repeat split; auto. apply (enc33_inj G O RT). exact D.
+Qed.
+
+Lemma endemic_sender_total_lem G (O : group_ops G) H sid msg1 tbs :
+  let res := snd (eot_sender_process G O H sid msg1 tbs) in
+  (res = Err eot_err_decode <-> msg1_undecodable G O msg1) /\
+  (res = Err eot_err_decode \/ exists skeys, res = Val skeys /\ length skeys = 256%nat).
+Proof.
+  intros res. split; [apply sender_err_iff|]. unfold res. rewrite <- eot_n_256. apply sender_total.
+Qed.
+
+Lemma endemic_receiver_total_lem G (O : group_ops G) H st msg2 :
+  let res := eot_receiver_process G O H st msg2 in
+  (res = Err eot_err_decode <-> msg2_undecodable G O st msg2) /\
+  (res = Err eot_err_decode \/ exists rkeys, res = Val (rs_bits st, rkeys) /\ length rkeys = 256%nat).
+Proof.
+  intros res. split; [apply receiver_err_iff|]. unfold res. rewrite <- eot_n_256. apply receiver_total.
+Qed.
